@@ -381,6 +381,62 @@ def w_linkdir(spell: int, reply: int, sort: int) -> str:
     return _linkdir(rt.sel(spell, 6), rt.sel(reply, 2), rt.sel(sort, 3))
 
 
+UNDATED = ['no-date-line', 'fractional-seconds-and-Z', 'invalid-date', 'both-dated']
+
+
+def _dupundated(sort, reply, und, order):
+    """a path trashed twice, one of the two records without a usable DeletionDate, plus a third entry: every --sort mode
+    lists all three, numbered from 0, and the reply restores exactly the entry printed at that index"""
+    with rt.untraced():
+        rt.begin(('same-path-twice-one-undated', SORTS[sort], reply, UNDATED[und], order))
+        td = '/v/.Trash-1000'
+        tail = {'no-date-line': '', 'fractional-seconds-and-Z': 'DeletionDate=2024-03-02T11:30:00.250Z\n', 'invalid-date': 'DeletionDate=2020-02-30T00:00:00\n',
+                'both-dated': 'DeletionDate=2020-01-04T00:00:00\n'}[UNDATED[und]]
+        ents = [('n1', '[Trash Info]\nPath=a/n\nDeletionDate=2020-01-02T00:00:00\n', 'FIRST'), ('n2', '[Trash Info]\nPath=a/n\n' + tail, 'SECOND'),
+                ('z', '[Trash Info]\nPath=a/z\nDeletionDate=2020-01-03T00:00:00\n', 'THIRD')]
+        if order:
+            ents = [ents[1], ents[0], ents[2]]
+        nodes = [W.d('/h'), W.d('/v/a'), W.f('/v/keep', 'KEEP', 0o644, 800)]
+        for j, (nm, text, data) in enumerate(ents):
+            nodes += [W.d(td, 0o700), W.d(td + '/files', 0o700), W.d(td + '/info', 0o700), W.f(td + '/files/' + nm, data, 0o644, 2000 + j),
+                      W.f(td + '/info/' + nm + '.trashinfo', text, 0o600, 2010 + j)]
+        args = (['--sort', SORTS[sort]] if SORTS[sort] else [])
+        rp = ['0', '1', '2', ''][reply]
+        m, res = scen.run_model(W.W(mounts=K.MOUNTS, cwd='/v/a', nodes=nodes), [{'snap': '/'}, C('restore', args, scen.env(), stdin=[rp], cwd='/v/a'), {'snap': '/'}])
+        before, r, after = res
+        label = 'same-path-twice:%s:sort=%s' % (UNDATED[und], SORTS[sort])
+        if r['exc']:
+            return rt.fail('C13:traceback:%s:%s' % (r['exc'].split(':')[0], label), r['exc'])
+        lst = K.restore_listing(r['out'])
+        if sorted(p_ for (_, _, p_) in lst) != ['/v/a/n', '/v/a/n', '/v/a/z'] or [i for (i, _, _) in lst] != [0, 1, 2]:
+            return rt.fail('C13:wrong-entries-offered:' + label, 'offered %r' % (lst,))
+        gone = sorted(nm for (nm, _, _) in ents if scen.sub(after, td + '/files/' + nm) is None)
+        if rp == '':
+            if gone or after != before:
+                return rt.fail('C13:unselected-entry-restored:' + label, 'empty reply, yet %r left the trash' % gone)
+            return rt.ok()
+        _, d, p_ = lst[int(rp)]
+        if p_ == '/v/a/z':
+            want = 'z'
+        else:
+            want = 'n1' if d == '2020-01-02 00:00:00' else 'n2'
+        if gone != [want]:
+            return rt.fail('C13:selected-entry-not-restored:' + label, 'reply %s designates %s (%s %s); left the trash: %r; exit %r stderr %r' % (rp, want, d, p_, gone, r['exit'], r['err'][-200:]))
+        data = {nm: dt for (nm, _, dt) in ents}[want]
+        got = scen.sub(after, p_)
+        if got is None or got[2] != data.encode():
+            return rt.fail('C13:selected-entry-not-restored:' + label, 'content at %s is %r, expected %r' % (p_, got, data))
+        return rt.ok()
+
+
+def w_dupundated(sort: int, reply: int, und: int, order: bool) -> str:
+    """
+    pre: 0 <= sort < 4 and 0 <= reply < 4 and 0 <= und < 4
+    post: _ == ''
+    """
+    return _dupundated(rt.sel(sort, 4), rt.sel(reply, 4), rt.sel(und, 4), rt.selb(order))
+
+
 def w_homevol(kind: int, reply: int, sort: int) -> str:
     """
     pre: 0 <= kind < 6 and 0 <= reply < 3 and 0 <= sort < 3
@@ -419,6 +475,8 @@ def obligations(tier):
     gparts = _prefix_parts(1, 3) if tier == 'quick' else _prefix_parts(2, 4)
     sparts = [('short', 3, 2)] if tier == 'quick' else _prefix_parts(1, 3)
     return kpair.obligations(tier) + [
+        CH('W_same_path_twice_one_record_undated', MOD, 'w_dupundated', timeout=300, engine='W', regime='selector', encodes=K.RESTORE_FUNCS + ['trashcli.restore.sort_method.sorter_for'], stubs=K.STUBS,
+           bounds='a path trashed twice (one record dated, the other without date / with fractional seconds and Z / invalid / dated) plus a third entry x 4 sort modes x replies 0 1 2 and empty x either directory order'),
         CH('W_requested_directory_is_a_symbolic_link', MOD, 'w_linkdir', timeout=300, engine='W', regime='selector', encodes=K.RESTORE_FUNCS, stubs=K.STUBS,
            bounds='the requested directory is a symbolic link to a directory, or the directory it points to: 6 spellings (absolute, relative, trailing slash) x reply 0 / none x 3 sort modes'),
         CH('W_trash_dirs_of_the_home_volume', MOD, 'w_homevol', timeout=300, engine='W', regime='selector', encodes=K.RESTORE_FUNCS, stubs=K.STUBS,
